@@ -10,7 +10,9 @@
 //!   * the body byte span and `tx_hash` are those of the freshly built tx;
 //!   * the (vkey, signature) witnesses, as a multiset, are exactly the entries
 //!     of `signatures` (so at most one witness per key);
-//!   * every witness verifies over the 32-byte transaction id.
+//!   * every witness verifies over the 32-byte transaction id;
+//!   * the signature map itself is what the calls so far leave (bookkeeping of the calls: the
+//!     last `sign` / `add_signature` of a key decides its signature, `remove_signature` removes it).
 
 use crate::c40::{self, Ev};
 use ed25519_dalek::{Signer, SigningKey, Verifier, VerifyingKey};
@@ -194,7 +196,20 @@ fn run_history(acc: &Acc, base: &Base, hist: &[Op]) -> Outcome {
     };
     let mut bt = base.built.clone();
     let mut before_last: Option<usize> = None;
+    // bookkeeping of the calls: key -> the signature the last sign / add_signature call gave it
+    let mut expect: BTreeMap<Vec<u8>, Vec<u8>> = BTreeMap::new();
     for (n, op) in hist.iter().enumerate() {
+        match op {
+            Op::Sign(k) | Op::AddSig(k) => {
+                expect.insert(pk_bytes(*k).to_vec(), dalek(*k).sign(&base.tx_hash).to_bytes().to_vec());
+            }
+            Op::AddSigAlt(k) => {
+                expect.insert(pk_bytes(*k).to_vec(), alt_signature(*k, &base.tx_hash).to_vec());
+            }
+            Op::Remove(k) => {
+                expect.remove(&pk_bytes(*k).to_vec());
+            }
+        }
         if n + 1 == hist.len() {
             before_last = read_tx(&bt.tx_bytes.0).ok().map(|x| x.1.len());
         }
@@ -237,6 +252,17 @@ fn run_history(acc: &Acc, base: &Base, hist: &[Op]) -> Outcome {
             listed.sort();
             let mut got = wits.clone();
             got.sort();
+            let by_calls: Vec<(Vec<u8>, Vec<u8>)> = expect.iter().map(|(k, v)| (k.clone(), v.clone())).collect();
+            if listed != by_calls {
+                fail(
+                    format!("signature-map:differs-from-the-calls after {after}"),
+                    format!(
+                        "the signature map lists {:?} but the calls so far leave {:?} (key prefix, signature prefix)",
+                        listed.iter().map(|w| (hex::encode(&w.0[..4]), hex::encode(&w.1[..4]))).collect::<Vec<_>>(),
+                        by_calls.iter().map(|w| (hex::encode(&w.0[..4]), hex::encode(&w.1[..4]))).collect::<Vec<_>>()
+                    ),
+                );
+            }
             acc.max_witnesses.fetch_max(got.len() as u64, Ordering::Relaxed);
             let mut per_key: BTreeMap<&Vec<u8>, usize> = BTreeMap::new();
             for (k, _) in &wits {
